@@ -12,7 +12,8 @@ SHARDS = {'quick': 4, 'thorough': 16}
 N = {'quick': 250, 'thorough': 3000}
 
 def gen_case(rng):
-    spec = rulesets.gen_spec(rng, max_groups=rng.choice([2, 3, 4, 6]), pool=rng.choice(['dyadic', 'dyadic3', 'equal', 'decimal', 'thirds', 'counts', 'tiny', 'random']))
+    mg, xg, ml = rng.choice([(1, 4, 4), (2, 5, 3), (3, 6, 3), (2, 4, 5)])
+    spec = rulesets.gen_spec(rng, min_groups=mg, max_groups=xg, max_len=ml, pool=rng.choice(['dyadic', 'dyadic3', 'equal', 'decimal', 'thirds', 'counts', 'tiny', 'random']))
     flags = {'skip_brute': rng.random() < 0.3, 'all_lower': rng.random() < 0.3, 'folder': 'Prince' if rng.random() < 0.1 else 'Grammar'}
     if flags['folder'] == 'Prince':
         gstream.add_prince(rng, spec)
